@@ -121,6 +121,9 @@ pub(crate) mod progress;
 /// Structs which are saved in JSON or binary format in the repository
 pub mod repofile;
 pub(crate) mod repository;
+/// Verification hooks
+#[cfg(feature = "verif-hooks")]
+pub mod verif;
 /// Virtual File System support - allows to act on the repository like on a file system
 pub mod vfs;
 
